@@ -17,6 +17,10 @@ ENGINES = {
             "intr-nodef": NODEF + ["--features", "prefer_intrinsics"],
         },
     },
+    "b3sum": {
+        "dir": "engines/b3sum", "bin": "vb3",
+        "configs": {"default": []},
+    },
 }
 
 
@@ -34,6 +38,8 @@ PLANS = {
     "C03": {"level": "model_checking", "runs": simple("core", "asm-default")},
     "C09": {"level": "exploration", "runs": simple("core", "asm-default")},
     "C10": {"level": "model_checking", "runs": simple("core", "asm-default")},
+    "C12": {"level": "fault_enumeration", "runs": simple("b3sum", "default")},
+    "C13": {"level": "exploration", "runs": simple("b3sum", "default")},
     "C14": {"level": "exploration", "runs": simple("core", "asm-all")},
     "C15": {"level": "exploration", "runs": simple("core", "asm-all")},
     "C16": {"level": "model_checking", "runs": simple("core", "asm-all")},
